@@ -317,6 +317,8 @@ class ImportDB:
                 os.getenv("PYFLYBY_PATH"),
                 os.getenv("PYFLYBY_KNOWN_IMPORTS_PATH"),
                 os.getenv("PYFLYBY_MANDATORY_IMPORTS_PATH"),
+                os.getcwd(),
+                os.getenv("HOME"),
             )
             cache_keys.append(key)
             if key in cls._default_cache:
@@ -333,7 +335,9 @@ class ImportDB:
                                target_dirname,
                                os.getenv("PYFLYBY_PATH"),
                                os.getenv("PYFLYBY_KNOWN_IMPORTS_PATH"),
-                               os.getenv("PYFLYBY_MANDATORY_IMPORTS_PATH")))
+                               os.getenv("PYFLYBY_MANDATORY_IMPORTS_PATH"),
+                               os.getcwd(),
+                               os.getenv("HOME")))
             try:
                 return cls._default_cache[cache_keys[-1]]
             except KeyError:
